@@ -104,6 +104,9 @@ def check(filename):
     First execute the command and then call ``matches_golden``. If a
     cross-check command is specified, do the same for that one as well.
     """
+    if options.args().unchecked:
+        return True
+
     ri = execute(options.args().cmd, filename, options.args().timeout)
     if not matches_golden(
             __GOLDEN, ri,
@@ -163,13 +166,15 @@ def do_golden_runs():
         logging.info(f'ignoring stderr')
     if options.args().match_out:
         logging.info(f'match (stdout): "{options.args().match_out}"')
-        if options.args().match_out not in __GOLDEN.out:
+        if not options.args().unchecked \
+                and options.args().match_out not in __GOLDEN.out:
             logging.error(
                 f'Expected stdout to match "{options.args().match_out}"')
             sys.exit(1)
     if options.args().match_err:
         logging.info(f'match (stderr): "{options.args().match_err}"')
-        if options.args().match_err not in __GOLDEN.err:
+        if not options.args().unchecked \
+                and options.args().match_err not in __GOLDEN.err:
             logging.error(
                 f'Expected stderr to match "{options.args().match_err}"')
             sys.exit(1)
